@@ -20,7 +20,7 @@ from bitproto._ast import (
 )
 from bitproto.errors import InternalError
 from bitproto.renderer.formatter import CaseStyleMapping, Formatter
-from bitproto.utils import final, override, upper_case
+from bitproto.utils import escape_string_literal, final, override, upper_case
 
 
 class PyFormatter(Formatter):
@@ -62,7 +62,7 @@ class PyFormatter(Formatter):
 
     @override(Formatter)
     def format_str_value(self, value: str) -> str:
-        return '"{0}"'.format(value)
+        return '"{0}"'.format(escape_string_literal(value))
 
     @override(Formatter)
     def format_int_value(self, value: int) -> str:
